@@ -246,7 +246,7 @@ def check_partition_of_unity(ob, space, fail, kind):
         return 0
     for e in S:
         tot = sum(v for v in global_values(space, e, pts).values())
-        if np.abs(np.asarray(tot) - 1).max() > 1e-12:
+        if not (np.abs(np.asarray(tot) - 1).max() <= 1e-12):   # NaN counts as a deviation
             fail("partition_of_unity", "%s basis sums to %s on element %d" % (kind, np.asarray(tot).ravel(), e))
             return 0
     return len(S)
